@@ -11,3 +11,4 @@ OBLIGATIONS = [K.BED_SECTION_W] + K.SPANS + [K.BED_KEEP, K.OVERLAPS, K.QUERY_ARG
 OBLIGATIONS = OBLIGATIONS + [K.SEARCH_ORDER, K.CACHE, K.CACHED_SIBS, K.INTERVAL_SIBS]
 OBLIGATIONS = OBLIGATIONS + [K.REOPEN]
 OBLIGATIONS = OBLIGATIONS + [K.ARG_NAMES]
+OBLIGATIONS = OBLIGATIONS + [K.INTERSECT_TOOL]
